@@ -70,6 +70,13 @@ def langOracle (l : Line) : String → Lang := fun _ =>
   | "syntax" => .syntaxErr
   | _ => .ok
 
+/-- `lens=param:n,param:n`: the lengths the slice / index expressions of the function under test see -/
+def lensOf (l : Line) : List (String × Nat) :=
+  ((str l "lens").splitOn ",").filterMap fun kv =>
+    match kv.splitOn ":" with
+    | [p, n] => n.toNat?.map fun k => (p, k)
+    | _ => none
+
 def showCls : Cls → String | .ok => "ok" | .err => "err" | .panic => "panic" | .nilnil => "nilnil"
 
 def modelLine (l : Line) : String × Bool :=
@@ -85,7 +92,14 @@ def modelLine (l : Line) : String × Bool :=
       | none => false
     -- F-C09f: `client` of op.Authorize stays nil behind an AuthorizeValidator
     let nilClient := str l "router" == "custom-authorize" && GenC09.closureAssigned.contains ("op.Authorize", "client")
-    let mayPanic := hintPanic || nilClient
+    -- an opaque token that decodes to `tbytes` bytes reaches the slice expressions of crypto.DecryptBytesAES
+    let unsafeAt (fn base : String) : Bool := GenC09.boundSites.any fun s => s.fn == fn && s.base == base && !s.safe
+    let shortCipher := has l "tbytes" && (fnPanicsAt GenC09.boundSites "crypto.DecryptBytesAES" "cipherText" (nat l "tbytes") || unsafeAt "crypto.DecryptBytesAES" "cipherText")
+    -- the Authorization header of `hlen` bytes reaches the index / slice expressions of op.getAccessToken
+    let shortHeader := has l "hlen" && (fnPanicsAt GenC09.boundSites "op.getAccessToken" "authHeader" (nat l "hlen") || unsafeAt "op.getAccessToken" "authHeader")
+    -- a code_verifier for an auth request without a challenge: the second router hands VerifyCodeChallenge a nil challenge
+    let nilChallenge := bool l "nilch" && !GenC09.nilGuardedParams.contains ("oidc.VerifyCodeChallenge", "c")
+    let mayPanic := hintPanic || nilClient || shortCipher || shortHeader || nilChallenge
     if ((shapeTable.find? (·.1 == ent)).map (·.2)).getD true then
       if mayPanic then ("single-response/may-panic", (monitorLine l).isNone || bool l "panic")
       else ("single-response", (monitorLine l).isNone)
@@ -124,6 +138,17 @@ def modelLine (l : Line) : String × Bool :=
       let p := callerMayPanic F c (str l "tcheck")
       (if p then "may-panic" else "no-panic", p || obs != "panic")
     | none => ("no-tolerant-caller", obs != "panic")
+  | "bytes" =>
+    -- the regenerated bound-site facts of `fn`, evaluated at the lengths the call presents
+    let p := (lensOf l).any fun (param, n) =>
+      if param == "*" then GenC09.boundSites.any fun s => s.fn == str l "fn" && sitePanics s (constEnv s.base n)
+      else fnPanicsAt GenC09.boundSites (str l "fn") param n
+    if str l "via" == str l "fn" then (if p then "panic" else "no-panic", p == (obs == "panic"))
+    else (if p then "may-panic" else "no-panic", p || obs != "panic")
+  | "rph" =>
+    -- the relying party's redirect handlers: the regenerated field contract (producer returns, consumers, call-throughs)
+    let p := handlerMayPanic GenC09.fieldReturns GenC09.callThroughs GenC09.fieldConsumers (str l "handler")
+    (if p then "may-panic" else "no-panic", p || obs != "panic")
   | "client" =>
     let fn := str l "fn"
     if fn == "" then ("no-panic", obs != "panic") else
